@@ -173,6 +173,7 @@ def namedB (n : CNetlist) : Bool :=
       allNamed (·.name) d.ports && allNamed (·.name) d.cables && allNamed (·.name) d.insts
 
 def Named (n : CNetlist) : Prop := namedB n = true
+instance (n : CNetlist) : Decidable (Named n) := by unfold Named; infer_instance
 
 def namesOf {α : Type} (name : α → Option String) (l : List α) : List String := l.filterMap name
 
@@ -194,6 +195,7 @@ def noAssignB (n : CNetlist) : Bool :=
     | some nm => !startsWithAssign nm
 
 def NoAssign (n : CNetlist) : Prop := noAssignB n = true
+instance (n : CNetlist) : Decidable (NoAssign n) := by unfold NoAssign; infer_instance
 
 def keysNodupB (p : Option (List Dict)) : Bool :=
   match p with
@@ -234,6 +236,7 @@ def wfB (n : CNetlist) : Bool :=
    | some t => refOK n t.ref && keysNodupB t.props)
 
 def WF (n : CNetlist) : Prop := wfB n = true
+instance (n : CNetlist) : Decidable (WF n) := by unfold WF; infer_instance
 
 /-- only the part of `WF` soundness needs from the original -/
 def propKeysB (n : CNetlist) : Bool :=
@@ -243,6 +246,7 @@ def propKeysB (n : CNetlist) : Bool :=
    | some t => keysNodupB t.props)
 
 def PropKeys (n : CNetlist) : Prop := propKeysB n = true
+instance (n : CNetlist) : Decidable (PropKeys n) := by unfold PropKeys; infer_instance
 
 /-! ## Executable decision of `examined o a = examined o b`
     (views are functions of names; they can only differ at a name one of the two sides uses) -/
